@@ -47,6 +47,22 @@ pub fn parser_drops_tokens(src: &str, syn: Syntax) -> bool {
     matches!(guarded(|| norm::parse(src, syn).map(|a| a.to_string() != src)), Ok(Ok(true)))
 }
 
+/// Known finding KF-C04-lone-cr-before-crlf: a carriage return that is not part of a CRLF and stands directly after a
+/// line feed or directly before a CRLF
+pub fn lone_cr_next_to_break(src: &str) -> bool {
+    let b = src.as_bytes();
+    for i in 0..b.len() {
+        if b[i] == b'\r' && b.get(i + 1) != Some(&b'\n') {
+            let after_lf = i > 0 && b[i - 1] == b'\n';
+            let before_crlf = b.get(i + 1) == Some(&b'\r') && b.get(i + 2) == Some(&b'\n');
+            if after_lf || before_crlf {
+                return true;
+            }
+        }
+    }
+    false
+}
+
 /// Self-check of the checker's lexer (harness soundness, never a violation): its code-token boundaries must be
 /// the parser's (`5do` is one malformed number for a Lua lexer but `5` `do` for full_moon; such input is not judged).
 fn lexer_agrees(ast: &full_moon::ast::Ast, src: &str, syn: Syntax) -> bool {
